@@ -36,3 +36,13 @@ func CCToTransfers() string {
 func CCToTransfer(id string) string {
 	return path.Join(CCToTransfers(), id)
 }
+
+// IsValidID reports whether the transfer id maps one-to-one to ledger keys below the
+// transfer prefixes. path.Join cleans its result, so ids such as ".", "..", "a/",
+// "a//b" or "../to/x" would collide with other ids or leave the prefix altogether.
+func IsValidID(id string) bool {
+	return id != "" &&
+		CCFromTransfer(id) == CCFromTransfers()+id &&
+		CCToTransfer(id) == CCToTransfers()+id &&
+		Base(CCFromTransfer(id)) == id
+}
